@@ -756,3 +756,42 @@ func WellFormed(g geom.T) error {
 	_, err := Observe(g)
 	return err
 }
+
+// SetCoords replaces the coordinates of g by those of model m (same type and
+// layout) through the type's SetCoords method.
+func SetCoords(g geom.T, m *Geom) error {
+	m.Norm()
+	var err error
+	switch g := g.(type) {
+	case *geom.Point:
+		if len(m.P[0][0]) == 0 {
+			return fmt.Errorf("mgeom: SetCoords cannot make a point empty")
+		}
+		_, err = g.SetCoords(toLib(m.P[0][0])[0])
+	case *geom.LineString:
+		_, err = g.SetCoords(toLib(m.P[0][0]))
+	case *geom.LinearRing:
+		_, err = g.SetCoords(toLib(m.P[0][0]))
+	case *geom.Polygon:
+		_, err = g.SetCoords(toLib2(m.P[0]))
+	case *geom.MultiLineString:
+		_, err = g.SetCoords(toLib2(m.P[0]))
+	case *geom.MultiPoint:
+		cs := make([]geom.Coord, len(m.P[0]))
+		for i, pt := range m.P[0] {
+			if len(pt) == 1 {
+				cs[i] = toLib(pt)[0]
+			}
+		}
+		_, err = g.SetCoords(cs)
+	case *geom.MultiPolygon:
+		cs := make([][][]geom.Coord, len(m.P))
+		for i := range m.P {
+			cs[i] = toLib2(m.P[i])
+		}
+		_, err = g.SetCoords(cs)
+	default:
+		err = fmt.Errorf("mgeom: SetCoords on %T", g)
+	}
+	return err
+}
